@@ -1,5 +1,5 @@
 From Coq Require Import Extraction ExtrOcamlBasic.
-From Shisui Require Import Base.Bytes Gen.K_storage Model.Storage.
+From Shisui Require Import Base.Bytes Gen.K_storage Model.Storage Model.Hybrid.
 Extraction Language OCaml.
 Extraction "storage_model.ml" init step put get held cap expect thr open replay xor_key le_to_N be_to_N bcmp
-  in_range_code in_range_logdist in_range_spec logdist K_contentDeletionPPM K_bytesPerMB MAXD sizekey.
+  in_range_code in_range_logdist in_range_spec is_ephemeral logdist K_contentDeletionPPM K_bytesPerMB MAXD sizekey.
